@@ -8,6 +8,8 @@ pub mod c07;
 pub mod c09;
 pub mod c11;
 pub mod c12;
+pub mod c13;
+pub mod proj;
 pub mod c16;
 pub mod c17;
 pub mod c18;
@@ -84,6 +86,7 @@ pub fn generate(prop: &str, tier: &str, g: &mut Gen) {
         "C08" => grid::generate_c08(g, thorough),
         "C09" => c09::generate(g, thorough),
         "C15" => grid::generate_c15(g, thorough),
+        "C13" => c13::generate(g, thorough),
         "C11" => c11::generate(g, thorough),
         _ => {}
     }
